@@ -109,8 +109,15 @@ def gen(seed, idx, tier):
         if rnd.random() < 0.45:
             d = os.path.dirname(path)
             stem, ext = os.path.basename(path).rsplit(".", 1)
-            coll = rnd.choice(["file", "file+1", "stale-tmp", "file+stale-tmp", "unrelated", "serial-tmp"])
+            coll = rnd.choice(["file", "file+1", "stale-tmp", "file+stale-tmp", "unrelated", "serial-tmp", "subset", "subset", "subset"])
             j = lambda n: os.path.join(d, n) if d else n  # noqa: E731
+            if coll == "subset":
+                # any combination of outputs and stale temporaries on the first three candidate names
+                for serial in ("", "-1", "-2"):
+                    if rnd.random() < 0.45:
+                        pre[j(f"{stem}{serial}.{ext}")] = "h5"
+                    if rnd.random() < 0.35:
+                        pre[j(f"{stem}{serial}.{ext}.tmp")] = "stale temporary file of an earlier crash"
             if coll in ("file", "file+1", "file+stale-tmp"):
                 pre[j(f"{stem}.{ext}")] = "h5"
             if coll == "file+1":
